@@ -97,6 +97,7 @@ func modeSharedLO(seed int64, n, threads int) {
 			ready.Done()
 			<-start
 			for i := 0; i < n; i++ {
+				kick()
 				var sc *sharedCall
 				if i%2 == 0 {
 					sc = &calls[0]
